@@ -495,13 +495,25 @@ func (interp *Interpreter) resizeFrame() {
 // Eval evaluates Go code represented as a string. Eval returns the last result
 // computed by the interpreter, and a non nil error in case of failure.
 func (interp *Interpreter) Eval(src string) (res reflect.Value, err error) {
+	interp.startRun()
 	return interp.eval(src, "", true)
 }
+
+// startRun associates the global frame, and thus all frames created by the
+// evaluation which starts, to the current run id. It must be called before
+// the evaluation can be cancelled, so that a cancellation occurring at any
+// time stops it.
+func (interp *Interpreter) startRun() { interp.frame.setrunid(interp.runid()) }
 
 // EvalPath evaluates Go code located at path and returns the last result computed
 // by the interpreter, and a non nil error in case of failure.
 // The main function of the main package is executed if present.
 func (interp *Interpreter) EvalPath(path string) (res reflect.Value, err error) {
+	interp.startRun()
+	return interp.evalPath(path)
+}
+
+func (interp *Interpreter) evalPath(path string) (res reflect.Value, err error) {
 	if !isFile(interp.opt.filesystem, path) {
 		_, err := interp.importSrc(mainID, path, NoTest)
 		return res, err
@@ -523,10 +535,11 @@ func (interp *Interpreter) EvalPathWithContext(ctx context.Context, path string)
 	interp.cancelChan = !interp.opt.fastChan
 	interp.mutex.Unlock()
 
+	interp.startRun()
 	done := make(chan struct{})
 	go func() {
 		defer close(done)
-		res, err = interp.EvalPath(path)
+		res, err = interp.evalPath(path)
 	}()
 
 	select {
@@ -543,6 +556,7 @@ func (interp *Interpreter) EvalPathWithContext(ctx context.Context, path string)
 // The main function, test functions and benchmark functions are internally compiled but not
 // executed. Test functions can be retrieved using the Symbol() method.
 func (interp *Interpreter) EvalTest(path string) error {
+	interp.startRun()
 	_, err := interp.importSrc(mainID, path, Test)
 	return err
 }
@@ -562,7 +576,7 @@ func (interp *Interpreter) eval(src, name string, inc bool) (res reflect.Value, 
 		return res, err
 	}
 
-	return interp.Execute(prog)
+	return interp.execute(prog)
 }
 
 // EvalWithContext evaluates Go code represented as a string. It returns
@@ -576,6 +590,7 @@ func (interp *Interpreter) EvalWithContext(ctx context.Context, src string) (ref
 	interp.cancelChan = !interp.opt.fastChan
 	interp.mutex.Unlock()
 
+	interp.startRun()
 	done := make(chan struct{})
 	go func() {
 		defer func() {
@@ -586,7 +601,7 @@ func (interp *Interpreter) EvalWithContext(ctx context.Context, src string) (ref
 			}
 			close(done)
 		}()
-		v, err = interp.Eval(src)
+		v, err = interp.eval(src, "", true)
 	}()
 
 	select {
